@@ -120,7 +120,18 @@ def run_case(args):
     return {'reproduced': bool(r), 'mismatches': r[:5]}
 
 
-def simulate(c, m, stim, opts, cycles=0, inject=None, calls=None):
+class _FalsyProbe(list):
+    """a callable that evaluates to false (an empty list subclass used as a probe object)"""
+
+    def __init__(self, fn):
+        super().__init__()
+        self.fn = fn
+
+    def __call__(self, line, values):
+        return self.fn(line, values)
+
+
+def simulate(c, m, stim, opts, cycles=0, inject=None, calls=None, cb_style='plain'):
     from kyupy.logic_sim import LogicSim
     n = stim.shape[1]
     sim = LogicSim(c, sims=n, m=m, **opts)
@@ -135,21 +146,27 @@ def simulate(c, m, stim, opts, cycles=0, inject=None, calls=None):
             idx = getattr(line, 'index', None)
             if idx in inj:
                 values[...] = pack(inj[idx][None, :])[0][:values.shape[0]]
+            if cb_style == 'returns-false':
+                return False            # a status ("nothing more to do"); the return value of a callback is not part of its interface
+            if cb_style == 'returns-count':
+                return len(inj)
+        if cb_style == 'falsy-callable':
+            cb = _FalsyProbe(cb)
     if cycles:
-        sim.cycle(cycles, cb) if cb else sim.cycle(cycles)
+        sim.cycle(cycles, cb) if cb is not None else sim.cycle(cycles)
     else:
         sim.s_to_c()
-        sim.c_prop(cb) if cb else sim.c_prop()
+        sim.c_prop(cb) if cb is not None else sim.c_prop()
         sim.c_to_s()
     return sim
 
 
-def compare(c, m, stim, opts, cycles=0, inject=None):
+def compare(c, m, stim, opts, cycles=0, inject=None, cb_style='plain'):
     """-> list of mismatch descriptions (empty = contract held)"""
     n = stim.shape[1]
     mism = []
     try:
-        sim = simulate(c, m, stim, opts, cycles, inject)
+        sim = simulate(c, m, stim, opts, cycles, inject, cb_style=cb_style)
     except Exception as e:  # noqa
         return [f'exception {e!r}']
     got = unpack(np.asarray(sim.s[1]), n)
